@@ -23,7 +23,7 @@ pub struct PairCase {
 fn pair_strategy() -> impl Strategy<Value = PairCase> {
 	// parameters carry no source names here: a diff speaks about the target namespace only (the
 	// .tinydiff format has no source column for parameters), so it cannot transport them
-	let cfg = GenCfg { ns_min: 2, ns_max: 2, p_missing: 0, style: TargetStyle::Arbitrary, param_src_names: false, ..GenCfg::default() };
+	let cfg = GenCfg { ns_min: 2, ns_max: 2, p_missing: 0, style: TargetStyle::Arbitrary, param_src_names: false, backslash_docs: true, ..GenCfg::default() };
 	// a quarter of the bases leave a few entries without a target name (diff() may refuse such a pair; when it answers,
 	// the answer must still take A to B)
 	let bases = prop_oneof![3 => mapset(cfg.clone()), 1 => mapset(GenCfg { p_missing: 4, ..cfg })];
@@ -313,7 +313,7 @@ fn build_diff(m: &MapSet, ns: usize, stream: &[u8], tags: &mut Vec<String>) -> D
 }
 
 fn apply_strategy() -> impl Strategy<Value = ApplyCase> {
-	let cfg = GenCfg { ns_min: 2, ns_max: 3, p_missing: 20, style: TargetStyle::Arbitrary, max_classes: 4, ..GenCfg::default() };
+	let cfg = GenCfg { ns_min: 2, ns_max: 3, p_missing: 20, style: TargetStyle::Arbitrary, max_classes: 4, backslash_docs: true, ..GenCfg::default() };
 	(mapset(cfg), draws(), any::<u8>(), order_seed()).prop_map(|(m, stream, ns, order)| {
 		let ns = 1 + (ns as usize) % (m.ns.len() - 1);
 		let mut tags = Vec::new();
